@@ -86,6 +86,10 @@
 
 (define (to-id id) (if (pair? id) (car id) id))
 (define (from-id id) (if (pair? id) (cdr id) id))
+(define (id-find id ls)
+  (cond ((null? ls) #f)
+        ((eq? id (to-id (car ls))) (car ls))
+        (else (id-find id (cdr ls)))))
 (define (id-filter pred ls)
   (cond ((null? ls) '())
         ((pred (to-id (car ls))) (cons (car ls) (id-filter pred (cdr ls))))
@@ -116,10 +120,15 @@
           (cons (car mod-name+imports)
                 (case (car x)
                   ((only)
+                   ;; imp-ids holds symbols and (to . from) pairs for
+                   ;; renamed ids: look up by the visible name and keep
+                   ;; the pair so that the original binding is imported
                    (map (lambda (imp)
-                          (if (or (boolean? imp-ids) (memq imp imp-ids))
-                              imp
-                              (error "importing unknown binding" imp imp-ids)))
+                          (cond
+                           ((boolean? imp-ids) imp)
+                           ((id-find imp imp-ids))
+                           (else
+                            (error "importing unknown binding" imp imp-ids))))
                         (cddr x)))
                   ((except)
                    (id-filter (lambda (i) (not (memq i (cddr x)))) imp-ids))
